@@ -159,39 +159,42 @@ def rule_2(ctx):
         for x in (-1.5, 0, 1.5):
             seen, out = run(name, x)
             got = seen.get('_rounding')
-            ok = isinstance(got, Ref) and got.ref == f'ext:decimal.{mode}'
+            ok = got == mode or (isinstance(got, Ref) and got.ref == f'ext:decimal.{mode}')
             if name == 'ROUND' and '_rounding' not in seen:
                 # default of _round applies
                 d = mm.func('_round').args.defaults
                 got = ctx.fold(d[-1], mm) if d else None
-                ok = isinstance(got, Ref) and got.ref == f'ext:decimal.{mode}'
+                ok = got == mode or (isinstance(got, Ref) and got.ref == f'ext:decimal.{mode}')
             ctx.expect(ok, _reg(ctx, name).node, f'{name}({x}) rounds with {mode}', f'{name}({x}) reaches _round with {got}, expected decimal.{mode}')
             ctx.expect(seen.get('number') == x, _reg(ctx, name).node, f'{name}({x}) rounds its own argument',
                        f'{name} hands {seen.get("number")!r} to _round instead of its argument')
     for x, mode in ((-1.5, 'ROUND_UP'), (-1e-9, 'ROUND_UP'), (0, 'ROUND_DOWN'), (1.5, 'ROUND_DOWN')):
         seen, out = run('INT', x)
         got = seen.get('_rounding')
-        ok = isinstance(got, Ref) and got.ref == f'ext:decimal.{mode}' and seen.get('num_digits') == 0
+        ok = (got == mode or (isinstance(got, Ref) and got.ref == f'ext:decimal.{mode}')) and seen.get('num_digits') == 0
         ctx.expect(ok, _reg(ctx, 'INT').node, f'INT({x}) rounds toward minus infinity ({mode}, 0 digits)',
                    f'INT({x}) reaches _round with {got}, digits {seen.get("num_digits")!r}: not a rounding toward minus infinity')
-    # _round: Decimal(str(number)), local context, rounding mode assigned, round(number, int(digits))
+    # _round itself, folded through the decimal module: shortest decimal representation of the float, the requested mode, the
+    # digit count, and the process-wide decimal context untouched afterwards
+    import decimal as _dec
     rf = mm.func('_round')
     p = func_params(rf)
-    dec = [c for c in flow.calls_in(rf) if ctx.res.resolve(c.func, mm) == 'ext:decimal.Decimal']
-    ok = len(dec) == 1 and isinstance(dec[0].args[0], ast.Call) and isinstance(dec[0].args[0].func, ast.Name) \
-        and dec[0].args[0].func.id == 'str' and names_in(dec[0].args[0]) == {'str', p[0]}
-    ctx.expect(ok, rf, '_round converts through Decimal(str(number))',
-               '_round does not build the Decimal from the shortest decimal representation str(number): binary representation '
-               'error leaks into the rounding (ROUND(2.675, 2))')
-    withs = [w for w in walk_local(rf) if isinstance(w, ast.With) and any(
-        ctx.res.resolve(i.context_expr.func, mm) == 'ext:decimal.localcontext' for i in w.items if isinstance(i.context_expr, ast.Call))]
-    ok = len(withs) == 1
-    mode_set = ok and any(isinstance(a, ast.Assign) and isinstance(a.targets[0], ast.Attribute) and a.targets[0].attr == 'rounding'
-                          and isinstance(a.value, ast.Name) and a.value.id == p[2] for a in ast.walk(withs[0]))
-    rnd = ok and any(isinstance(c, ast.Call) and isinstance(c.func, ast.Name) and c.func.id == 'round' and len(c.args) == 2
-                     and 'int(' in ast.unparse(c.args[1]) for c in ast.walk(withs[0]))
-    ctx.expect(mode_set and rnd, rf, '_round rounds inside the local context with the requested mode',
-               '_round does not set the requested rounding mode on a local decimal context and round inside it')
+    before = (_dec.getcontext().rounding, _dec.getcontext().prec)
+    for args, want in (((2.675, 2, 'ROUND_HALF_UP'), 2.68), ((2.5, 0, 'ROUND_HALF_UP'), 3.0), ((-2.5, 0, 'ROUND_HALF_UP'), -3.0),
+                       ((-2.5, 0, 'ROUND_DOWN'), -2.0), ((1.11, 1, 'ROUND_UP'), 1.2), ((-1.11, 1, 'ROUND_UP'), -1.2), ((1234.5, -2, 'ROUND_HALF_UP'), 1200.0),
+                       ((0.125, 2, 'ROUND_HALF_UP'), 0.13), ((1.005, 2.0, 'ROUND_HALF_UP'), 1.01)):
+        it = Interp(ctx.a, mm, dict(zip(p, args)), inline_pkg=True)
+        try:
+            out = it.run(rf.body)
+        finally:
+            after = (_dec.getcontext().rounding, _dec.getcontext().prec)
+            _dec.getcontext().rounding, _dec.getcontext().prec = before
+        got = out.value if out.end == 'return' else f'<{out.end} {out.value!r}>'
+        ctx.expect(got == want and isinstance(got, float), rf, f'_round{args!r}',
+                   f'_round{args!r} gives {got!r}, expected {want!r}: the float enters decimal through its shortest representation str(x) '
+                   '(2.675 is 2.675, not 2.67499999...), is rounded with the requested mode to the requested digits and comes back as float')
+        ctx.expect(after == before, rf, f'_round{args!r} leaves the process-wide decimal context alone',
+                   f'after _round the global decimal context is {after}, before it was {before}: the rounding mode must be set on a local context')
     # Number.__trunc__ truncates toward zero
     fm = ctx.mod('xlfunctions.func_xltypes')
     tr = fm.func('Number.__trunc__')
@@ -280,10 +283,54 @@ def rule_5(ctx):
     c05.rule_4(ctx)
 
 
+def _np_power(interp, a, b):
+    """numpy.power on two value instances applies the class's own ** (object arrays): ExcelType.__pow__ / __rpow__."""
+    return interp._binop(ast.Pow(), a, b)
+
+
+_np_power.wants_interp = True
+
+
+def rule_6(ctx):
+    """The rounding family and POWER as the evaluator calls them (registered wrapper, casts, body; decimal arithmetic folded) on
+    witness arguments: half away from zero at every digit count, also for large magnitudes / many digits; powers of negative
+    bases with whole-valued exponents however the exponent is stored."""
+    from . import values as V
+    table = [
+        ('ROUND', [2.5, 0], 3.0), ('ROUND', [-2.5, 0], -3.0), ('ROUND', [0.5, 0], 1.0), ('ROUND', [1.005, 2], 1.01), ('ROUND', [2.675, 2], 2.68),
+        ('ROUND', [1234.5678, -2], 1200.0), ('ROUND', [123456.789, 10], 123456.789), ('ROUND', [123456789012.345, 4], 123456789012.345),
+        ('ROUND', [1e15, 0], 1e15), ('ROUNDUP', [1234567.125, 9], 1234567.125), ('ROUNDUP', [1.11, 1], 1.2), ('ROUNDUP', [-1.11, 1], -1.2),
+        ('ROUNDDOWN', [1.19, 1], 1.1), ('ROUNDDOWN', [-1.19, 1], -1.1), ('ROUNDDOWN', [31415.92654, -2], 31400.0),
+        ('INT', [2.5], 2.0), ('INT', [-2.5], -3.0), ('INT', [1e20], 1e20), ('INT', [-0.5], -1.0),
+    ]
+    for name, args, want in table:
+        f = V.registered(ctx, name)
+        out = V.call(ctx, name, [V.num(a) for a in args])
+        got = V.norm(out.value) if out.end == 'return' else f'<{out.end} {out.value!r}>'
+        if isinstance(got, tuple) and got and got[0] == 'Number':
+            got = got[1]
+        ok = isinstance(got, (int, float)) and not isinstance(got, bool) and got == want
+        ctx.expect(ok, f.node, f'{name}({", ".join(map(str, args))})',
+                   f'{name}({", ".join(map(str, args))}) gives {got!r}, expected {want!r}: decimal rounding half away from zero (INT: toward minus '
+                   'infinity) for every number and digit count, without a Python-level exception for large magnitudes or many digits')
+    pw = V.registered(ctx, 'POWER')
+    for args, want in (([-2, 2], 4), ([-2, 2.0], 4.0), ([-8, 3.0], -512.0), ([-2.0, 4 / 2], 4.0), ([2, 10], 1024), ([9, 0.5], 3.0), ([2, -2], 0.25)):
+        out = V.call(ctx, 'POWER', [V.num(a) for a in args], models={'ext:numpy.power': _np_power})
+        got = V.norm(out.value) if out.end == 'return' else f'<{out.end} {out.value!r}>'
+        if isinstance(got, tuple) and got and got[0] == 'Number':
+            got = got[1]
+        ok = isinstance(got, (int, float)) and not isinstance(got, bool) and abs(got - want) < 1e-12
+        ctx.expect(ok, pw.node, f'POWER({args[0]!r}, {args[1]!r})',
+                   f'POWER({args[0]!r}, {args[1]!r}) gives {got!r}, expected {want!r}: a negative base has a real power for every whole-valued '
+                   'exponent, whether it is stored as an integer or as a float')
+    ctx.floor(len(table) + 7, 'rounding / power witnesses')
+
+
 RULES = [
     ('C16.1', 'domain guards at critical points', rule_1),
     ('C16.2', 'rounding directions', rule_2),
     ('C16.3', 'rounding happens in decimal', rule_3),
     ('C16.4', 'ATAN2 argument binding', rule_4),
     ('C16.5', 'local rounding context (shared with C05.4)', rule_5),
+    ('C16.6', 'rounding family and POWER on witness arguments through the registered wrapper', rule_6),
 ]
